@@ -605,3 +605,25 @@ Proof.
     eapply perm_trans; [apply perm_skip; apply perm_swap|]. apply perm_swap.
   - vsplit.
 Qed.
+
+(* reading by glob after any sequence of writes and deletes on a store built from nothing: the
+   concatenation, in sorted key order, of the records LAST written under exactly the matching keys
+   whose last call was a write *)
+Theorem c19_session_read_glob :
+  forall (R : Type) (ser : R -> list N) (de : list N -> option R)
+         (enc : codec -> list N -> list N) (dec : codec -> list N -> option (list N)),
+    (forall c b, dec c (enc c b) = Some b) ->
+    forall (ops : list (op R)) (b p : list N),
+      Forall (op_ok R ser de) ops -> existsb (writes_to b) ops = true ->
+      exists ks, ms_expand (run_ops ser enc [] ops) b p = Ok ks /\
+        StronglySorted key_le ks /\
+        (forall k, In k ks <-> glob_match p k = true /\ exists rs, last_on ops b k None = Some (Some rs)) /\
+        ms_read_glob de dec (run_ops ser enc [] ops) b p = Ok (flat_map (last_recs R ops b) ks).
+Proof. exact session_read_glob. Qed.
+
+Example c19_session_read_glob_ex :
+  existsb (writes_to (R := bool) (str "b")) ex_ops = true /\
+  ms_read_glob ex_de ex_dec (run_ops ex_ser ex_enc [] ex_ops) (str "b") (str "*") = Ok [true; false; true] /\
+  flat_map (last_recs bool ex_ops (str "b")) [str "j"; str "k.gz"] = [true; false; true] /\
+  ms_read_glob ex_de ex_dec (run_ops ex_ser ex_enc [] ex_ops) (str "b2") (str "*") = Ok [].
+Proof. vsplit. Qed.
